@@ -208,6 +208,83 @@ theorem archive_returns_fails :
   revert this
   decide
 
+/-- (for C11) `context.git_rev` changes in the `_reload` background step.  From its start to its
+    completion — i.e. whenever a `reload` step is outstanding — the pipeline is NOT active.  For
+    ALL histories, stray triggers included (more generally: any outstanding step excludes activity). -/
+theorem rev_change_only_inactive {s : St} (hs : ReachAny s) (h : Step.reload ∈ s.outstanding) :
+    s.isActive = false := by
+  cases ha : s.isActive with
+  | false => rfl
+  | true =>
+    have := (active_only_at_rest hs ha).2.1
+    rw [this] at h
+    cases h
+
+/-- the same at the two ends: the event that starts a `reload` step leaves the pipeline
+    inactive, and the event that completes one begins with the pipeline inactive -/
+theorem rev_change_only_inactive_ends {s : St} (hs : ReachAny s) (e : Event) :
+    (Step.reload ∈ (step s e).2.1.started → (next s e).isActive = false) ∧
+    (isReloadCompletion s e = true → s.isActive = false) := by
+  constructor
+  · intro h
+    have hr : ReachAny (next s e) := by
+      obtain ⟨a, evs, rfl⟩ := hs
+      exact ⟨a, evs ++ [e], (runEvents_snoc _ _ _).symm⟩
+    apply rev_change_only_inactive hr
+    cases e with
+    | complete i b =>
+      cases hk : s.outstanding[i]? with
+      | none => simp [step, hk, noop, Out.pure] at h
+      | some k =>
+        simp only [step, hk] at h
+        simp only [next, step, hk, List.mem_append]
+        exact Or.inr h
+    | flagArchive => simp [step, noop, Out.pure] at h
+    | boot => simpa [next, step, fireTop] using Or.inr h
+    | update => simpa [next, step, fireTop] using Or.inr h
+    | strayRun => simpa [next, step, fireTop] using Or.inr h
+    | submitBegin =>
+      by_cases hc : s.isActive = true
+      · simp only [step, hc, if_true] at h
+        simpa [next, step, hc, fireTop] using Or.inr h
+      · simp [step, hc, noop, Out.pure] at h
+    | submitEnd =>
+      by_cases hc : s.core.state = .gitting
+      · simp only [step, hc, if_true] at h
+        simpa [next, step, hc, fireTop] using Or.inr h
+      · simp [step, hc, noop, Out.pure] at h
+    | dispatchArchive =>
+      by_cases hc : s.isActive = true ∧ s.core.archive = true
+      · simp only [step, hc] at h
+        simpa [next, step, hc, fireTop] using Or.inr h
+      · simp [step, hc, noop, Out.pure] at h
+  · intro h
+    cases e with
+    | complete i b =>
+      simp only [isReloadCompletion, decide_eq_true_eq] at h
+      exact rev_change_only_inactive hs (List.mem_of_getElem? h)
+    | _ => simp [isReloadCompletion] at h
+
+/-- (for C11) After a `reload` step has completed (`git_rev` changed) the pipeline is not active
+    again before `FSM.load` has run (a `Step.load` was started: `farm.notify_all(); farm.clear()`):
+    along every Guarded history, while the ghost `needsLoad` is set the pipeline is inactive.
+    Full statement (fails, see below): the same for every history. -/
+theorem active_after_reload_needs_load_partial (a : Bool) (evs : List Event) (hg : Guarded evs) :
+    (ghostRun false (init a) evs).1 = true → (ghostRun false (init a) evs).2.isActive = false := by
+  intro h
+  have := ghost_run (inv_init a) evs hg false (by simp) h
+  simp [St.isActive, Core.isActive, this.1]
+
+/-- with the stray `running_trigger` of C10:legacy-double-step3 the reload cycle is cut after the
+    revision changed: the pipeline is active again and `load` never ran (workers not cleared) -/
+theorem active_after_reload_needs_load_fails :
+    ¬ ∀ (a : Bool) (evs : List Event),
+      (ghostRun false (init a) evs).1 = true → (ghostRun false (init a) evs).2.isActive = false := by
+  intro h
+  have := h false (originWitness ++ [.complete 0 false])
+  revert this
+  decide +kernel
+
 /-- The nesting bound inside the model (`fuel`) is never reached, from any state: no statement
     above holds because the model gave up. -/
 theorem nesting_bound_unreached (s : St) (e : Event) : (step s e).2.1.fuelOut = false := by
@@ -259,6 +336,14 @@ example : (fireTop .archiving ⟨⟨.running, .entering, none, false, true⟩, [
 /-- the active predicate is satisfiable on a reachable state -/
 example : (runEvents (init false) [.boot, .complete 0 false, .complete 0 false]).isActive = true := by
   decide +kernel
+
+/-- non-vacuity for the C11 facts: in `demo` the ghost is set after the reload completes (archive
+    excursion, pipeline inactive) and cleared by the `load` that follows; a reload step is outstanding
+    right after the update -/
+example : (ghostRun false (init false) (demo.take 6)).1 = true ∧
+    (ghostRun false (init false) (demo.take 7)).1 = false ∧
+    Step.reload ∈ (runEvents (init false) (demo.take 5)).outstanding ∧
+    (ghostRun false (init false) demo).2.isActive = true := by decide +kernel
 
 /-- guarded histories exist and `demo` is one; its trace has the archive excursion -/
 example : Guarded demo ∧ (trace (init false) demo).length = 9 := by
